@@ -557,6 +557,13 @@ pub fn run(args: &Args) {
             out.finish();
             std::process::exit(if failed { 1 } else { 0 });
         }
+        if f["kind"] == "lookalike_caller" {
+            probe_lookalike_callers(&mut out);
+            for f in &out.monitor_failures { println!("MONITOR-FAIL {}", f["what"]); }
+            let failed = !out.monitor_failures.is_empty();
+            out.finish();
+            std::process::exit(if failed { 1 } else { 0 });
+        }
         if f["kind"] == "ownership_history" { let ok = replay_history(&mut out, f); out.finish(); std::process::exit(if ok { 0 } else { 1 }); }
         let (phase, c, variant, k, who) = (f["phase"].as_u64().unwrap() as u8, parse_c(f["contract"].as_str().unwrap()), f["variant"].as_str().unwrap().to_string(),
             f["payload"].as_u64().unwrap() as usize, parse_who(f["caller"].as_str().unwrap()));
@@ -575,6 +582,7 @@ pub fn run(args: &Args) {
     SEED.store(args.seed, std::sync::atomic::Ordering::Relaxed);
     probe_router_without_admin(&mut out);
     probe_nested_calls(&mut out);
+    probe_lookalike_callers(&mut out);
     // 0. the ownership transfers the later phases rely on must be possible for the owner
     for ph in [1u8, 2u8] {
         let x = world16(ph);
@@ -725,6 +733,54 @@ fn probe_nested_calls(out: &mut Out) {
                     out.monitor_fail("C16", &format!("{} sent from inside a running loan (failure caught by the sender) left a trace: state differs from the same loan without it", name), replay.clone());
                 }
             }
+        }
+    }
+}
+
+// ---- a designated contract is known by its ADDRESS, not by what it answers ------------------------------------------------------
+// For the variants reserved to one designated contract (the collector's ForwardFees: the fee distributor; the vault router's
+// NextLoan: a registered vault; the cw20 Receive hooks of pair / trio / vault: their own LP token), the caller is an outsider contract
+// that answers EVERY smart query exactly as the designated contract answers `{"config":{}}` (and, for an LP token, `{"token_info":{}}`
+// / `{"minter":{}}`). It must be refused like any other stranger, and nothing may change.
+mod chameleon {
+    use cosmwasm_std::{Binary, Deps, DepsMut, Empty, Env, MessageInfo, Response, StdResult};
+    use cw_multi_test::{Contract, ContractWrapper};
+    use cw_storage_plus::Item;
+    const ANSWER: Item<Binary> = Item::new("answer");
+    #[cosmwasm_schema::cw_serde]
+    pub struct Init { pub answer: Binary }
+    fn instantiate(d: DepsMut, _e: Env, _i: MessageInfo, m: Init) -> StdResult<Response> { ANSWER.save(d.storage, &m.answer)?; Ok(Response::default()) }
+    fn execute(_d: DepsMut, _e: Env, _i: MessageInfo, _m: Empty) -> StdResult<Response> { Ok(Response::default()) }
+    fn query(d: Deps, _e: Env, _m: serde_json::Value) -> StdResult<Binary> { ANSWER.load(d.storage) }
+    pub fn contract() -> Box<dyn Contract<Empty>> { Box::new(ContractWrapper::new(execute, instantiate, query)) }
+}
+
+fn probe_lookalike_callers(out: &mut Out) {
+    let cases: [(C, &str, &str); 5] = [(C::Collector, "ForwardFees", "config"), (C::VaultRouter, "NextLoan", "config"),
+                                       (C::Pair, "Receive", "token_info"), (C::Trio, "Receive", "token_info"), (C::Vault, "Receive", "token_info")];
+    for (c, variant, q) in cases {
+        let mut x = world16(0);
+        let des = x.designated(c, variant);
+        // what the designated contract answers to the query an impostor check would most plausibly make
+        let qmsg = Binary::from(format!("{{\"{}\":{{}}}}", q).into_bytes());
+        let answer: Result<Binary, _> = x.w.app.wrap().query(&cosmwasm_std::QueryRequest::Wasm(cosmwasm_std::WasmQuery::Smart { contract_addr: des.to_string(), msg: qmsg }))
+            .map(|v: Value| Binary::from(serde_json::to_vec(&v).unwrap()));
+        let Ok(answer) = answer else { out.count(&format!("lookalike:{}:{}:no_answer_to_copy", c.coq(), variant)); continue };
+        let code = x.w.app.store_code(chameleon::contract());
+        let imp = x.w.app.instantiate_contract(code, admin(), &chameleon::Init { answer }, &[], "lookalike", None).unwrap();
+        x.prepare_actor(&imp, out);
+        let pls = payloads(&x, c, &imp);
+        for pl in pls.into_iter().filter(|p| p.variant == variant) {
+            let before = full_snapshot(&x);
+            let target = x.addr(c);
+            let app = &mut x.w.app;
+            let r = run_catch(|| exec_json(app, &imp, &target, &pl.msg, &pl.funds), |_e| E_OTHER);
+            let accepted = matches!(r, Outcome::Ok(_));
+            out.monitor_evals += 1;
+            out.count(&format!("lookalike:{}:{}:{}", c.coq(), variant, if accepted { "accepted" } else { "rejected" }));
+            let replay = json!({"kind": "lookalike_caller", "contract": c.coq(), "variant": variant, "payload": pl.k, "copies_answer_to": q});
+            if accepted { out.monitor_fail("C16", &format!("{} {} was accepted from an outsider contract that merely answers queries like the designated contract", c.coq(), variant), replay); }
+            else if full_snapshot(&x) != before { out.monitor_fail("C16", &format!("a refused {} {} from a look-alike contract changed state", c.coq(), variant), replay); }
         }
     }
 }
